@@ -430,3 +430,15 @@ package region
 //@   modifies F.region.info.available, X.closed
 //@   panics never[C09]
 //@   ensures[C09] i.available == nil && ghostat("closed", old(i.available)) == 1
+
+// ---- request side of a multi (C12): what is sent and what is awaited agree ----
+// Ghost inreq[k] counts the actions placed into the request for slot k of the batch. After serialisation every call still
+// held in a slot has exactly one action in the request and every emptied slot has none - so a well-formed response
+// (one result per action) satisfies checkResponse, and a call is never awaited without having been sent.
+//@ func region.(*multi).toProto
+//@   requires forall(k, 0 <= k && k < len(m.calls), m.calls[k] != nil)
+//@   at call append#1 ghost inreq[i] == ghostat("inreq", i) + 1
+//@   loop 1 invariant[C12] forall(k, 0 <= k && k < i, ghostat("inreq", k) == old(ghostat("inreq", k)) + ite(m.calls[k] != nil, 1, 0))
+//@   loop 1 invariant[C12] forall(k, i <= k && k < len(m.calls), ghostat("inreq", k) == old(ghostat("inreq", k)) && m.calls[k] != nil)
+//@   loop 1 invariant[C12] len(m.calls) == old(len(m.calls)) && actionsPerReg != nil && forall(r, haskey(actionsPerReg, r) ==> actionsPerReg[r] != nil)
+//@   ensures[C12] forall(k, 0 <= k && k < len(m.calls), ghostat("inreq", k) == old(ghostat("inreq", k)) + ite(m.calls[k] != nil, 1, 0))
